@@ -121,6 +121,9 @@ class C14:
         from sa.idioms import same_minmax
         if canon(got_e) == canon(end_t) or same_minmax(got_e, end_t):
             ctx.ok("R14.2", f"{self.file}:{y.lineno} segment_clip", "end_time = min(start + duration, clip.end_time)")
+        elif L.kind == "for" and self._end_by_grid(y, L, got_e, clip, dur, hopp, inc) is True:
+            ctx.ok("R14.2", f"{self.file}:{y.lineno} segment_clip", "end_time = min(start + duration, clip.end_time) wherever a segment is produced "
+                                                                     "(the yield's condition and its end evaluated on a grid of clips, windows and hops)")
         elif canon(got_e) == canon(end_raw):
             ctx.bad("R14.2", self.file, "segment_clip", f"end_time={show(got_e)[:70]} (unclamped)",
                     "the end of an incomplete window is not truncated at the clip end: the segment reaches outside its parent clip", y.lineno)
@@ -136,7 +139,10 @@ class C14:
         bad = None
         n = 0
         breaks = [e for e in s.events if e.kind in ("break", "return") and L.id in e.loops]
+        by_float_grid = False
         for s_rel, e_rel, incv in itertools.product((-1, 0, 1), (-1, 0, 1), (False, True)):
+            if by_float_grid:
+                break
             # numeric model: clip.end = 10, hop fixed so that start/end relations hold
             cev = 10.0
             sv = cev + s_rel
@@ -154,16 +160,22 @@ class C14:
                     verdict = self._float_grid(s, L, i, breaks, y, clip, dur, hop, inc, site) if L.kind == "for" else None
                     if verdict is None:
                         ctx.undec("R14.3", site, f"condition outside the recognised fragment: {show(e.live)[:80]}")
-                    return
+                        return
+                    by_float_grid = True  # the stop / yield conditions were decided (and reported) on the float grid
+                    break
                 if lv and e is not y:
                     stopped = True
                 if lv and e is y:
                     yielded = True
+            if by_float_grid:
+                break
             n += 1
             want_stop = sv >= cev or (ev_ > cev and not incv)
             if bool(stopped) != want_stop or bool(yielded) == want_stop:
                 bad = (s_rel, e_rel, incv, stopped, yielded)
-        if bad is None and L.kind == "for" and self._float_grid(s, L, i, breaks, y, clip, dur, hop, inc, site) is False:
+        if by_float_grid:
+            pass
+        elif bad is None and L.kind == "for" and self._float_grid(s, L, i, breaks, y, clip, dur, hop, inc, site) is False:
             pass  # reported by the float grid
         elif bad is None:
             ctx.ok("R14.3", site, f"stop iff start >= clip.end or (end > clip.end and not include_incomplete), else yield ({n} cases)")
@@ -195,6 +207,32 @@ class C14:
             ctx.bad("R14.5", self.file, "segment_clip", f"uuid={show(u)[:80] if u else 'default'}",
                     "segment identifiers must be uuid5(uuid_namespace, text containing the parent uuid and the final start and end): "
                     "otherwise ids are not reproducible across calls or collide within one call", y.lineno)
+
+    @staticmethod
+    def _end_by_grid(y, L, got_e, clip, dur, hopp, inc):
+        """The end of the yielded clip written as a case analysis (None for "does not fit", clip.end for "truncated"): on a grid of
+        clips / durations / hops / window numbers, wherever the yield's own condition holds the end must be
+        min(start + i * hop + duration, clip.end_time).  True / False, or None when something is not a number there."""
+        cs, ce = ("attr", clip, "start_time"), ("attr", clip, "end_time")
+        i = ("elem", L.id)
+        seen = 0
+        for csv, length, hv, dv, iv, incv in itertools.product((0.0, 1.5), (2.0, 2.5), (0.5, 1.0, 3.0), (0.5, 1.0, 2.5, 4.0), range(6), (True, False)):
+            cev = csv + length
+            env = {cs: csv, ce: cev, ("attr", clip, "duration"): length, dur: dv, hopp: hv, inc: incv, i: iv, ("inloop", L.id): True,
+                   ("cmp", "is", hopp, NONE): False, ("cmp", "isnot", hopp, NONE): True,
+                   ("cmp", "is", ce, NONE): False, ("cmp", "isnot", ce, NONE): True}
+            lv = peval(y.live, env)
+            if lv[0] != "const":
+                return None
+            if not lv[1]:
+                continue
+            v = peval(got_e, env)
+            if v[0] != "const" or isinstance(v[1], bool) or not isinstance(v[1], (int, float)):
+                return None
+            seen += 1
+            if v[1] != min(csv + iv * hv + dv, cev):
+                return False
+        return True if seen >= 20 else None
 
     def _float_grid(self, s, L, i, breaks, y, clip, dur, hop, inc, site):
         """The stop / yield conditions evaluated in DOUBLE arithmetic on concrete clips, windows and hops with non-representable
